@@ -75,6 +75,7 @@ def sql_kind(term):
 
 
 class AModel(Model):
+    inline_lambdas = True      # callbacks handed to private helpers are expanded where they are called
     def __init__(self, repo, ci, exc=True):
         Model.__init__(self)
         self.repo = repo
@@ -105,6 +106,11 @@ class AModel(Model):
             node = m.consts[name]
             if isinstance(node, ast.Constant):
                 return C(node.value)
+            # module-level tables of constants (e.g. SQL statement templates keyed by name)
+            if isinstance(node, ast.Dict) and all(isinstance(k, ast.Constant) and isinstance(v, ast.Constant) for k, v in zip(node.keys, node.values)):
+                return ('dict', tuple((C(k.value), C(v.value)) for k, v in zip(node.keys, node.values)))
+            if isinstance(node, (ast.Tuple, ast.List)) and all(isinstance(e, ast.Constant) for e in node.elts):
+                return ('tuple', tuple(C(e.value) for e in node.elts))
         return None
 
     def find_method(self, name):
